@@ -27,6 +27,24 @@ CLAIMED = {
 	'C09': ('other', 'abstract interpretation list/single over property bodies vs run-time-visible annotation; handler-signature join with Node.prop_keys recomputed statically; Procedure shape obligations; grammar-production emptiness',
 		'Decides the contract between the value-driven flattening and the annotation-driven popping for all 102 expandable properties and 183 handlers of the three Procedure clients, exhaustively; plus metadata-key unambiguity, one-result-per-node shape of Procedure, and that the raw-descendant fallback cannot fire for classes with properties.',
 		'purity of node properties is argued, not checked; prop_keys recomputed with the algorithm read from node.py', 'DESIGN.md §4 C09'),
+	'C06': ('other', 'dataflow over the header round trip (dict-literal keys -> constructor parameters -> attributes), writer/reader separator agreement, Jinja first-line check, same-expression checks in Runner',
+		'Decides the header round-trip and target-selection clauses: the header reads back to the same value (field wiring is the identity, every field is hashed), written and parsed text forms agree, the embedded header is built from the same sources that can_transpile compares, the header is read from the path the output is written to, forced runs take every module. Dependency-driven staleness and output-path injectivity are not decided.',
+		'jinja2 as reader of block/entrypoint.j2', 'DESIGN.md §4 C06'),
+	'C13': ('other', 'static evaluation of the TokenDefinition tables (default and grammar variant) joined with the TokenTypes enum and a frozen name<->spelling table; domain-order reachability',
+		'Decides the table clauses exhaustively (28 symbols, 21 combined symbols, two definitions): offsets map to the right enum members, ranges are disjoint and fold into the Symbol domain, bracket/minus members used by type sit at the right offsets, combined symbols have a length the lexer tries, no opener is shadowed by an earlier domain or list entry. Token-stream equality with CPython and layout invariance are not decided.',
+		'frozen member-name <-> spelling table', 'DESIGN.md §4 C13'),
+	'C14': ('other', 'writer/reader/TypedDict key-set joins and field dataflow for the two record shapes; separator agreement of the attr-path encoding',
+		'Decides the schema clauses of the symbol-table export/import: keys written == keys read == TypedDict keys per record shape, discriminators agree, every restored constructor field is fed from the key of the same name, path fields use the same codec pair, attr paths use the same separator and integer indices. Symbol-by-symbol equality, dependency order and idempotence are not decided.',
+		'CPython ast only', 'DESIGN.md §4 C14'),
+	'C15': ('other', 'field symmetry of dumps/loads branches and coverage of every attribute the EntryOfLark view reads by what loads restores',
+		'Decides that nothing the node layer can observe of a lark tree is lost by the cache encoding: per-branch key symmetry, discriminator agreement, source_map order, every Tree/Token/Meta attribute read by the view is restored, no other module reads the raw lark object, JSON codec and cache format agree. Field-by-field equality over all trees is not decided.',
+		'lark constructor signatures read with inspect', 'DESIGN.md §4 C15'),
+	'C17': ('other', 'finite dispatch analysis: branch operator vs CPython-parsed operator class, routing partition, exhaustiveness against the grammar operator ladder',
+		'Decides exhaustively over the finite (node class, token) table that a folded value can only come from a branch applying the operator CPython applies for that token, that int/int true division is never truncated, that every other combination is refused, and that no grammar-admitted token falls into a default arm that changes its meaning. Numeric corner cases through float() are not decided.',
+		'the evaluator computes with Python operators, so the right operator gives the right value', 'DESIGN.md §4 C17'),
+	'C19': ('other', 'store analysis of the container classes: fresh-copy/alias classification in clone/combine, add/delete store pairing along bind/unbind paths (following super), raise-type inventory',
+		'Decides the structural clauses of the container model: clones and combinations own their storage and do not mutate operands, the right operand wins, stores written by bind/resolve are exactly those deleted by unbind, rebind is unbind-then-bind, the public API raises ValueError (TypeError in combine), invoke curries the maximal resolvable prefix. Observational equivalence with a reference model is not decided.',
+		'stores = dict attributes initialised in __init__', 'DESIGN.md §4 C19'),
 	'C12': ('translation_validation', 'translation validation of shipped grammar/rule-module pairs by an independent meta-grammar reader (ast + hand-written parser)',
 		'Every rule of data/syntax/gram.lark and py_gram.lark is compared node-by-node with the tuple tree checked in as gram_rules.py / py_rules.py; exhaustive over the 83 shipped rules. Decides the two fixed-point obligations of the property on the artifacts; says nothing about generated grammars.',
 		'trusts CPython ast.literal_eval and the 150-line reader vlib/metagram.py, which is itself validated by the gram.lark == gram_rules.py fixed point', 'DESIGN.md §4 C12'),
